@@ -143,3 +143,151 @@ pub fn sorted<T: Ord>(mut v: Vec<T>) -> Vec<T> {
     v.sort();
     v
 }
+
+// ---------------------------------------------------------------------------------------------
+// non-termination inside the code under test
+//
+// A monitor whose statement includes termination registers every input before handing it to the library.
+// A monitor thread watches the slots; an input that keeps its worker busy for `trigger` of wall-clock time is
+// only a *suspect* (the machine may be loaded): it is written out and replayed alone in a fresh process under
+// a CPU-time limit (RLIMIT_CPU). CPU time, not wall-clock time, decides: death by SIGXCPU / SIGKILL is the
+// verdict "does not terminate"; a replay that returns means the stall was load and the run goes on.
+
+pub mod stall {
+    use serde_json::Value;
+    use std::sync::{Arc, Mutex};
+    use std::time::{Duration, Instant};
+
+    #[derive(Default)]
+    struct Slot {
+        tick: u64,
+        busy: bool,
+        bytes: Vec<u8>,
+        meta: String,
+    }
+
+    pub struct Watch {
+        slots: Vec<Mutex<Slot>>,
+    }
+
+    thread_local! {
+        static SHARD: std::cell::Cell<usize> = const { std::cell::Cell::new(usize::MAX) };
+    }
+
+    /// CPU seconds granted to one input replayed alone (an input needs microseconds)
+    pub const CPU_LIMIT_ALONE: u64 = 60;
+
+    impl Watch {
+        pub fn new(jobs: usize) -> Arc<Watch> {
+            Arc::new(Watch {
+                slots: (0..jobs.max(1)).map(|_| Mutex::new(Slot::default())).collect(),
+            })
+        }
+
+        /// called once by each worker thread
+        pub fn register(&self, shard: usize) {
+            SHARD.with(|s| s.set(shard));
+        }
+
+        pub fn enter(&self, bytes: &[u8], meta: &str) {
+            let shard = SHARD.with(|s| s.get());
+            if let Some(slot) = self.slots.get(shard) {
+                let mut s = slot.lock().unwrap();
+                s.tick += 1;
+                s.busy = true;
+                s.bytes.clear();
+                s.bytes.extend_from_slice(bytes);
+                if s.meta != meta {
+                    s.meta = meta.to_string();
+                }
+            }
+        }
+
+        pub fn leave(&self) {
+            let shard = SHARD.with(|s| s.get());
+            if let Some(slot) = self.slots.get(shard) {
+                slot.lock().unwrap().busy = false;
+            }
+        }
+    }
+
+    pub enum Verdict {
+        /// the replay died of its CPU-time limit
+        NonTerminating { case: Value, replay_file: std::path::PathBuf },
+    }
+
+    /// Spawns the monitor thread. `make_case(bytes, meta)` builds the replay case of the monitor;
+    /// `on_verdict` is called (once) from the monitor thread when an input is confirmed non-terminating and
+    /// must not return (it reports and exits the process: the stuck worker can not be joined).
+    pub fn spawn_monitor(
+        watch: Arc<Watch>,
+        property: &'static str,
+        verif_dir: std::path::PathBuf,
+        trigger: Duration,
+        make_case: fn(&[u8], &str) -> Value,
+        on_verdict: Box<dyn Fn(Verdict, Vec<String>) + Send>,
+    ) {
+        std::thread::spawn(move || {
+            let n = watch.slots.len();
+            let mut seen: Vec<(u64, Instant)> = (0..n).map(|_| (0, Instant::now())).collect();
+            let mut notes: Vec<String> = Vec::new();
+            loop {
+                std::thread::sleep(Duration::from_millis(500));
+                for i in 0..n {
+                    let (tick, busy) = {
+                        let s = watch.slots[i].lock().unwrap();
+                        (s.tick, s.busy)
+                    };
+                    if !busy || tick != seen[i].0 {
+                        seen[i] = (tick, Instant::now());
+                        continue;
+                    }
+                    if seen[i].1.elapsed() < trigger {
+                        continue;
+                    }
+                    // suspect: replay alone under a CPU-time limit
+                    let (bytes, meta) = {
+                        let s = watch.slots[i].lock().unwrap();
+                        if s.tick != tick {
+                            continue;
+                        }
+                        (s.bytes.clone(), s.meta.clone())
+                    };
+                    let case = make_case(&bytes, &meta);
+                    let dir = verif_dir.join("replays");
+                    let _ = std::fs::create_dir_all(&dir);
+                    let file = dir.join(format!("{property}-stall-{i}.json"));
+                    let _ = std::fs::write(&file, serde_json::to_string_pretty(&serde_json::json!({"property": property, "class": "non-termination", "case": case})).unwrap_or_default());
+                    let exe = std::env::current_exe().unwrap_or_else(|_| "rio-mon".into());
+                    let status = std::process::Command::new("sh")
+                        .arg("-c")
+                        .arg(format!("ulimit -t {CPU_LIMIT_ALONE}; exec \"$0\" \"$1\" --replay \"$2\" --verif-dir \"$3\" >/dev/null 2>&1"))
+                        .arg(&exe)
+                        .arg(property)
+                        .arg(&file)
+                        .arg(&verif_dir)
+                        .status();
+                    use std::os::unix::process::ExitStatusExt;
+                    match status {
+                        Ok(st) if matches!(st.signal(), Some(24) | Some(9)) => {
+                            on_verdict(Verdict::NonTerminating { case, replay_file: file }, notes.clone());
+                            return;
+                        }
+                        Ok(st) => {
+                            notes.push(format!(
+                                "worker {i} spent more than {:?} of wall-clock time on one input; replayed alone it returned ({st}): load, not a verdict",
+                                trigger
+                            ));
+                            let _ = std::fs::remove_file(&file);
+                            seen[i] = (tick, Instant::now());
+                        }
+                        Err(e) => {
+                            notes.push(format!("worker {i} stalled but the replay could not be started ({e}): no verdict"));
+                            seen[i] = (tick, Instant::now());
+                        }
+                    }
+                }
+            }
+        });
+    }
+}
